@@ -84,7 +84,25 @@ func C02(tier string) {
 
 	encs := c02Encoders()
 	var segs []keySeg
-	if tier == "thorough" {
+	if os.Getenv("VERIF_C02_LIGHT") != "" {
+		// configuration children: boundary alphabet, dense ends of [0,1], every 2048th float in between
+		segs = f32QuickSegs()
+		var light []keySeg
+		for _, sg := range segs {
+			if sg.hi-sg.lo < 100000 {
+				light = append(light, sg)
+				continue
+			}
+			light = append(light, keySeg{sg.lo, sg.lo + 1<<16})
+			for k := sg.lo + 1<<16 + 2048; k+2 < sg.hi-1<<20; k += 2048 {
+				light = append(light, keySeg{k, k + 1})
+			}
+			light = append(light, keySeg{sg.hi - 1<<20, sg.hi})
+		}
+		segs = light
+		r.NotExhaustive()
+		r.Rule("light configuration run: boundary alphabet, the 2^16 smallest and 2^20 largest floats of [0,1], every 2048th float in between")
+	} else if tier == "thorough" {
 		segs = f32AllSegs()
 		r.Rule("every non-NaN float32 bit pattern (4,278,190,082 values) walked in increasing numeric order through each of 6 curve encoders and 3 quantisers, then every NaN payload (no-panic only)")
 	} else {
@@ -92,6 +110,7 @@ func C02(tier string) {
 		r.NotExhaustive()
 		r.Rule("every float32 in [-1024 ulp below -0, 1+4096 ulp] (complete, ~1.07e9 values) plus +/-2 ulp around every power of two and its 1.5x midpoint over the whole exponent range, both signs, +/-Inf, +/-MaxFloat32, walked in increasing numeric order through each of 6 curve encoders and 3 quantisers; NaN: 12 payloads")
 	}
+	r.Rule("child processes: the other lazy-table first-use order (full walk) and GOMAXPROCS in {1,3,7,12} (light walk)")
 	r.Rule("oracle per x: x<=0 -> 0, x>=1 -> max, never decreasing along the walk, for 0<=x<=1 code within [M*OETF(x-h)-1/2-eps, M*OETF(x+h)+1/2+eps] checked at both ends of every maximal run of equal codes (sufficient because both bounds are non-decreasing in x); distinct = number of (encoder, run) pairs")
 	r.Assume("reference OETFs are the float64 inverse formulas of IEC 61966-2-1, Adobe RGB (1998), ISO 22028-2; h = half a table step (1/1022 or 1/131070) widened by 1%, eps = M*3e-7+1e-4 for float32 rounding inside the encoder")
 	chunks := f32Chunks(segs, 1<<21)
@@ -153,8 +172,20 @@ func C02(tier string) {
 	r.Sample(map[string]interface{}{"encoder": "linear.NormalisedTo16Bit", "x": "+Inf", "code": linear.NormalisedTo16Bit(float32(math.Inf(1)))})
 
 	// other first-use order in a child process
-	if os.Getenv("VERIF_ORDER") == "" {
-		subRunOrder(r, "C02", tier, "encode16-first")
+	if os.Getenv("VERIF_SUBRUN") == "" {
+		var cw sync.WaitGroup
+		cw.Add(1)
+		go func() { defer cw.Done(); subRunOrder(r, "C02", tier, "encode16-first") }()
+		// the tables must not depend on the scheduler configuration they were built under
+		for _, gmp := range []string{"1", "3", "7", "12"} {
+			gmp := gmp
+			cw.Add(1)
+			go func() {
+				defer cw.Done()
+				subRun(r, "C02", tier, "GOMAXPROCS="+gmp, "GOMAXPROCS="+gmp, "VERIF_C02_LIGHT=1", "VERIF_WORKERS=4")
+			}()
+		}
+		cw.Wait()
 	}
 	r.Finish()
 }
